@@ -331,10 +331,10 @@ func shrinkTableJSON(spec json.RawMessage) []json.RawMessage {
 func init() {
 	register(&Prop{
 		ID:       "C05",
-		Imports:  "From Tab Require Import Run.Glue Run.C05Run.",
-		CaseType: "c05session",
-		CaseFn:   "C05s_case",
-		ModelFn:  "C05s_model",
+		Imports:  "From Tab Require Import Run.Glue Run.C05Run Run.C05R6Run.",
+		CaseType: "c05x",
+		CaseFn:   "C05x_case",
+		ModelFn:  "C05x_model",
 		Rule: "tables built through the public API (AddHeaders / AddRowItems / NewRow+Add+AddRow / AppendNewRow+Add / AddSeparator); " +
 			"every shape with header in {none,0,1,2 cells} and up to 3 rows over {separator,0,1,2 cells} (texts from a quote/comma/CR/LF/NUL/0xFF alphabet), " +
 			"every single field over all strings of length <= 2 of a 7-byte alphabet in first/last/padded position, and random tables to 6x6 over all 256 byte values; " +
@@ -426,6 +426,21 @@ func init() {
 			}
 			// sessions come last: one render after another, over several tables
 			out = append(out, genC05Sessions(r, tier, csvText)...)
+			// round 6: items of every Go kind, state that is not content, destinations (c05_r6.go)
+			out = append(out, genC05R6Sessions(r, tier)...)
+			nk := 120
+			if tier == "thorough" {
+				nk = 3000
+			}
+			for i := 0; i < nk; i++ {
+				ts := randTable(r, 5, 5, tableItems, hows)
+				enrichSpec(r, &ts, tableItems)
+				add(ts)
+			}
+			for i := 0; i < nk; i++ {
+				add0 := randSession(r, csvAnyItem)
+				out = append(out, mustJSON(add0))
+			}
 			return out
 		},
 		Run: func(spec json.RawMessage) CaseOut {
@@ -439,7 +454,7 @@ func init() {
 			v := ts.SpecView() // what was put in; extractView(t) would be what the table now holds
 			vc := v.Coq(true)
 			return CaseOut{
-				Coq:        cqPair(cqList([]string{vc}), cqList([]string{cqPair(cqNat(0), o.Coq())})), // a session of one render
+				Coq:        cqPair(cqList([]string{vc}), cqList([]string{"(S0 " + cqPair(cqNat(0), o.Coq()) + ")"})), // a session of one render
 				Desc:       o,
 				Size:       ts.Size(),
 				Tags:       append(shapeTags(v), "outcome="+o.Kind),
